@@ -34,8 +34,13 @@ def gen_simulation(rs, n_rows=(24, 60), force_nn_pair=None, absent_arm=False, fo
         # a Radius / LSHNearest bandit that is certain to meet empty neighbourhoods and carries its own distribution for them
         forced = (gen.pick(rs, gen.LP_KINDS), gen.pick(rs, ["lsh", "radius"]))
         combos.append(forced)
+    only_context_free = not combos and rs.integers(8) == 0
     while len(combos) < n_bandits:
-        combos.append(gen.ALL_COMBOS[int(rs.integers(48))])
+        if only_context_free:
+            # a simulation without any contextual bandit runs without contexts at all (its own split / scoring paths)
+            combos.append((gen.pick(rs, [k for k in gen.LP_KINDS if not k.startswith("lin")]), "none"))
+        else:
+            combos.append(gen.ALL_COMBOS[int(rs.integers(48))])
     order = rs.permutation(len(combos))
     combos = [combos[int(i)] for i in order]
     cfgs = []
@@ -61,6 +66,9 @@ def gen_simulation(rs, n_rows=(24, 60), force_nn_pair=None, absent_arm=False, fo
                 c["np"]["k"] = int(gen.pick(rs, [1, 2, 3]))
         if p in ("radius", "knn", "lsh") and rs.integers(4) == 0:
             c["n_jobs"], c["backend"] = int(gen.pick(rs, [2, 3, 4])), "threading"  # worker threads inside the simulation
+        if l == "ts" and rs.integers(2) == 0:
+            # Thompson Sampling with a binarizer (the logged rewards stay binary: other Thompson bandits of the simulation have none)
+            c["lp"]["binarizer"] = gen.pick(rs, ["inverted", "thr_half", "nonneg"])
         cfgs.append(c)
     kinds = {c["lp"]["kind"] for c in cfgs}
     contextual = any(gen.is_ctx(c) for c in cfgs)
